@@ -14,8 +14,11 @@ package server
 //@ modifies fileutil.gFlagDir
 //@ ensures result == nil ==> fileutil.gFlagDir == se.tmpDir
 
-//@ func (se *SSEnv) finalDirExists [C16]
+// gFinalDirExists: a directory with the snapshot's final name already exists
+//@ ghost var gFinalDirExists bool
+//@ func (se *SSEnv) finalDirExists [C16 C15]
 //@ trusted file-system query
+//@ ensures result == gFinalDirExists
 
 // the rename that publishes the directory changes the entry list of the snapshot ROOT directory (the
 // parent of both names): that is the directory that must be fsynced before FinalizeSnapshot reports
@@ -33,8 +36,12 @@ package server
 // gFlagRemoved: its flag file has been removed (the snapshot counts as complete from then on)
 //@ ghost var gFinalized bool
 //@ ghost var gFlagRemoved bool
-//@ func (se *SSEnv) FinalizeSnapshot [C16]
+// C15/C16: a snapshot that has already been published under this name is never replaced: a second
+// complete stream (retransmission, another sender) for the same index is reported out of date and the
+// published directory -- which raft may already have been told about -- stays as it is
+//@ func (se *SSEnv) FinalizeSnapshot [C16 C15]
 //@ noframe
+//@ ensures old(gFinalDirExists) ==> result != nil
 //@ free requires fileutil.gDirtyDir == 0
 //@ modifies fileutil.gFlagDir, fileutil.gDirtyDir, held(finalizeLock), raftio.gDataMutated, raftio.gPublished, gFinalized
 //@ ensures result == nil ==> fileutil.gFlagDir == se.tmpDir
